@@ -743,6 +743,7 @@ func (o *ObjectSchema) invalidKeyError(value any) error {
 		validKeys[i] = k
 		i++
 	}
+	sort.Strings(validKeys)
 	return &ConstraintError{
 		Message: fmt.Sprintf(
 			"Invalid parameter '%v', expected one of: %s",
